@@ -13,6 +13,8 @@ from lib.common import *
 
 BASE_PROGRAMS = [
     ("loop_forever", "begin push.1 while.true push.1 end end", None),
+    # a procedure whose body is `dynexec`, invoked with its own hash on top of the stack: unbounded dynamic recursion
+    ("dyn_forever", "proc.f dynexec end begin procref.f dynexec end", None),
     ("rep30", "begin repeat.30 push.1 drop end end", None),
     ("rep47", "begin repeat.47 push.7 drop end end", None),
     ("rep64", "begin repeat.64 push.1 add end end", None),
@@ -22,6 +24,9 @@ BASE_PROGRAMS = [
     ("mem", "begin repeat.12 push.1.2.3.4 mem_storew.5 dropw push.5 mem_load drop end end", None),
     ("big", "begin repeat.400 push.1 drop end end", None),
 ]
+
+
+NINF = 2          # the first NINF programs do not terminate
 
 
 def run(tier, replay=None):
@@ -62,19 +67,20 @@ def run(tier, replay=None):
     # measure the cycle count of every program (unlimited run)
     meas = os.path.join(wd, "measure.ndjson")
     with open(meas, "w") as f:
-        for name, src, kern, inputs in PROGRAMS[1:]:
+        for name, src, kern, inputs in PROGRAMS[NINF:]:
             f.write(json.dumps({"src": src, "kernel": kern, "inputs": [limbs(x) for x in inputs], "adv": []}) + "\n")
     need = {}
     for prof in ("release", "checked"):
         outp = os.path.join(wd, "measure_%s.ndjson" % prof)
         run_harness(prof, ["replay-masm", meas, outp])
-        for (name, src, _, _), l in zip(PROGRAMS[1:], open(outp)):
+        for (name, src, _, _), l in zip(PROGRAMS[NINF:], open(outp)):
             res = json.loads(l)
             if res["outcome"] != "ok":
                 raise ToolError("corpus program %s does not run: %s" % (name, res))
             if need.setdefault(name, res["cycles"]) != res["cycles"]:
                 ck.violation("cycles-differ-between-profiles:" + name, "cycle count differs between build profiles", {"program": src})
-    need["loop_forever"] = 0
+    for name, _, _, _ in PROGRAMS[:NINF]:
+        need[name] = 0
     needs = sorted(set(need.values()))
     cfgp = os.path.join(wd, "GEN_Cycle.cfg")
     with open(cfgp, "w") as f:
@@ -132,8 +138,29 @@ def run(tier, replay=None):
             if d:
                 ck.violation("cycle:%s:%s:m=%s:e=%s" % (prof, name, rec["max_cycles"], rec["expected_cycles"]), d,
                              {"kind": "cycle", "profile": prof, "scenario": rec, "expect": s, "impl": res})
+    # non-terminating programs under a large limit, each in its own process (a crash of the process is an outcome here)
+    for name, src, kern, inputs in PROGRAMS[:NINF]:
+        for m in (100000,) + ((1000000,) if tier == "thorough" else ()):
+            one = os.path.join(wd, "large_%s_%d.ndjson" % (name, m))
+            with open(one, "w") as f:
+                f.write(json.dumps({"src": src, "kernel": kern, "inputs": [], "adv": [], "max_cycles": m, "expected_cycles": 64}) + "\n")
+            outp = one + ".out"
+            if os.path.exists(outp):
+                os.remove(outp)
+            r_ = run_harness("release", ["replay-masm", one, outp], check=False, timeout=1800)
+            ck.traces += 1
+            ck.note_case([name, m, 64])
+            res = None
+            if r_.returncode == 0 and os.path.exists(outp):
+                lines = open(outp).read().splitlines()
+                res = json.loads(lines[0]) if lines else None
+            if res is None:
+                ck.violation("cycle:process-abort:%s" % name, "limit %d: the process died (exit %s: %s) instead of stopping with the cycle-limit error" % (
+                    m, r_.returncode, (r_.stderr or "").strip().splitlines()[-1:] ), {"kind": "cycle-large", "program": src, "max_cycles": m})
+            elif res["outcome"] != "err" or res["err"]["kind"] != "CycleLimitExceeded" or res["err"].get("limit") != m:
+                ck.violation("cycle:large:%s:m=%d" % (name, m), "non-terminating program under limit %d: %s" % (m, str(res)[:200]), {"kind": "cycle-large", "program": src, "max_cycles": m})
     ck.extra["cycle_counts_measured"] = need
-    ck.sample({"program": PROGRAMS[1][1], "needs": need["rep30"], "limits": sorted({s["m"] for s in by_n[need["rep30"]]})})
+    ck.sample({"program": PROGRAMS[NINF][1], "needs": need["rep30"], "limits": sorted({s["m"] for s in by_n[need["rep30"]]})})
     ck.sample({"program": PROGRAMS[0][1], "needs": "infinite", "limits": sorted({s["m"] for s in by_n[0]})})
     ck.assumptions = ["the cycle count n of each terminating corpus program is measured by an unlimited run of the implementation "
                       "(the decoder-level specification predicts op streams, see C13); what is judged is exactness around n"]
